@@ -19,7 +19,7 @@ J_MAX = 0.05
 B_RECOVER = 600.0
 B_DETECT = 300.0
 RULE = (
-    "generated scripts: 1..6 phases from {healthy, blackout, lossy(cyclic drop pattern), rferr} with durations "
+    "generated scripts: 1..6 phases from {healthy, blackout, blackout with OS send errors (ENETUNREACH reported through error_received), lossy(cyclic drop pattern), rferr} with durations "
     "0.1..400 virtual s, 0..3 user actions (reset / set-spa-info) at times biased into discovery (0..4.5 s) and "
     "the handshake (4..8 s) of the first and of later connection attempts, client-handler suspensions, jitter tape "
     "(J<=50 ms); the simulator block is silently changed during outages. Then the network is healthy. "
@@ -42,6 +42,7 @@ def strategy(tier):
         st.tuples(st.just("healthy"), dur, st.just(None)),
         st.tuples(st.just("blackout"), dur, st.just(None)),
         st.tuples(st.just("rferr"), dur, st.just(None)),
+        st.tuples(st.just("neterr"), dur, st.just(None)),
         st.tuples(st.just("lossy"), dur, st.lists(st.integers(0, 1), min_size=2, max_size=7)),
     ).map(list)
     when = st.one_of(st.floats(0.0, 9.0), st.floats(0.0, 9.0), st.floats(9.0, 400.0)).map(lambda x: round(x, 2))
@@ -89,6 +90,10 @@ def run_case(case) -> Result:
     t0 = rec["t0"]
     if rec["detect_fail"] is not None:
         res.fail("C09|blackout-not-reported", f"still CONNECTED {rec['detect_fail']:.0f} virtual s into a blackout")
+    if rec["escapes"]:
+        # the recorded dead end; the scenario went on after a user-style reset, everything else is judged as usual
+        res.fail("C09|not-recovered|ERROR_SPA_NOT_FOUND|spa-absent|pump-alive",
+                 f"the manager sat in ERROR_SPA_NOT_FOUND for 25 s on a fault-free network (at {[round(x) for x in rec['escapes']]} s) until the harness reset it")
     if rec["ok_at"] is None:
         why = f" pump died: {rec['pump_exc']!r}" if rec["pump_exc"] is not None else ""
         res.fail(f"C09|not-recovered|{rec['final_state'].name}|spa-{'present' if rec['final_spa'] else 'absent'}|pump-{'alive' if rec['pump_alive'] else 'dead'}",
